@@ -222,6 +222,29 @@ class ConstantPropagationTransformer(Transformer):
 
         return o._rebuild(bounds=new_bounds, body=new_body)
 
+    def visit_WhileLoop(self, o, **kwargs):
+        constants_map = kwargs.get('constants_map', {})
+        mapper = ConstantPropagationMapper()
+
+        # The iteration count is unknown: whatever the body assigns is not a
+        # known constant in the condition, in the body or after the loop
+        for assign in FindNodes(ir.Assignment).visit(o.body):
+            invalidate_constants_map(assign.lhs, constants_map)
+        for loop in FindNodes(ir.Loop).visit(o.body):
+            invalidate_constants_map(loop.variable, constants_map)
+        for call in FindNodes(ir.CallStatement).visit(o.body):
+            arguments = tuple(call.arguments) + tuple(arg for _, arg in call.kwarguments)
+            for var in FindVariables().visit(arguments):
+                invalidate_constants_map(var, constants_map)
+
+        new_condition = mapper(o.condition, constants_map=constants_map)
+        with dict_override(kwargs, {
+                'within_loop': True, 'constants_map': deepcopy(constants_map)
+        }):
+            new_body = self.visit(o.body, **kwargs)
+
+        return o._rebuild(condition=new_condition, body=new_body)
+
     def visit_MultiConditional(self, o, **kwargs):
         constants_map = kwargs.get('constants_map', {})
         mapper = ConstantPropagationMapper()
